@@ -789,6 +789,10 @@ REFINED = [
     "chunks_to_words on a result buffer of any length R with room for the last chunk and for the total (Proofs/Text/ChunksTight.lean chunksToWords_spec_len); instance: "
     "result_len = max_len + ceil_div((len-1)*chunk_bits, WORD_BITS) + 1 of the proposed fix c07-from-chunks-result-len-words (fromChunksWT) = the current code's "
     "result (fromChunksW) = sum chunk_i 2^(i k), all word slices, all k >= 1, all W (from_chunks_result_len_in_words)",
+    "two's complement bytes, the converse direction (round 7, Proofs/Text/BytesSignedInv.lean): the encoding of z has exactly signedLen z = bit_len(|z|)/8 + 1 bytes (0 for zero), "
+    "which is the minimal two's complement length minSignedLen z (proved: minSignedLen z <= n iff z = 0 or n >= 1 and -(2^(8n-1)) <= z < 2^(8n-1)) for every z except -(2^(8q+7)), where it is one more (signed_bytes_length); the decoder is injective on byte strings of "
+    "one length, and encode(decode(bs)) = bs holds EXACTLY for the byte strings (bytes < 256) of length signedLen(decode(bs)) — specification, word-level little-endian functions and the "
+    "mirrored big-endian functions (signed_bytes_inverse_canonical); with ibig_bytes_model / be_bytes_mirrored this makes the signed byte functions mutually inverse in both directions",
     "Tie A: radix::digit_from_ascii_byte (three byte ranges, offsets, `res < radix`), is_radix_valid, MIN_RADIX, MAX_RADIX regenerated from radix.rs on every run "
     "(Dashu/Gen/TextDigit.lean); the hand model of the grammar theorems (digitOf, validRadix) equals the regenerated text for every byte and radix "
     "(digit_table_regenerated)",
@@ -801,8 +805,9 @@ FRONTIER = [
     "log_word_base inside Debug are builder-div's / C01's / C10's mirrored models with their proved specs, imported and composed (Props/C07Debug, chunks_model)",
     "padIntegral (Model/Text/Spec.lean) is a hand transcription of core::fmt::Formatter::pad_integral — Rust's standard library is outside /repo, so no theorem "
     "can tie it; the harness compares every flag combination with Rust's primitive integer formatting on values < 2^128 (`prim-disagree`)",
-    "two's complement bytes: decode(encode(z)) = z is proved for every integer; the converse (encode(decode(b)) = b) only holds for minimal-length encodings and "
-    "is stated for the unsigned functions only (ubig_bytes_inverse_canonical)",
+    "two's complement bytes: IBig::to_le_bytes(-(2^(8q+7))) is one byte longer than the minimal two's complement encoding (-128 -> [0x80, 0xff], proved: signed_bytes_length); the "
+    "documentation promises two's complement, not minimality, so this is recorded as behaviour of the code (and of the specification the theorems are about), not as a finding; "
+    "consequently encode(decode(b)) = b fails for the minimal string [0x80] — the converse is stated for the encoder's length signedLen, which is the exact condition (signed_bytes_inverse_canonical)",
     "log_word_base's f32 first guess is a parameter `est` of the Debug model (theorems hold for every est passing the function's own assert!; that the real "
     "estimate passes it is C10's clause); the two DigitWriters of DoubleEnd::format_prepared receive one piece each and are modelled by the per-byte conversion "
     "(equal by digit_writer_swar_sound)",
@@ -820,7 +825,8 @@ THEOREMS = ["Dashu.Props.C07." + t for t in [
     "medium_on_words", "write_chunk_on_words", "dword_split_on_words",
     "fast_divide_small_exact", "swar_digit_chunk", "low_layer_constants_regenerated", "digit_writer_swar_sound",
     "digit_writer_write_invariant", "print_on_mirrored_low_layer", "raw_digits_on_mirrored_division",
-    "write_pieces_recorded", "write_pieces_shape", "print_on_recorded_pieces", "chunks_inverse", "digit_table_regenerated", "chunk_spec_guards", "ubig_bytes_inverse_canonical", "be_bytes_mirrored", "to_chunks_buffers_never_overrun", "from_chunks_result_len_in_words", "chunk_buffer_formulas_regenerated"]] + [
+    "write_pieces_recorded", "write_pieces_shape", "print_on_recorded_pieces", "chunks_inverse", "digit_table_regenerated", "chunk_spec_guards", "ubig_bytes_inverse_canonical", "be_bytes_mirrored", "to_chunks_buffers_never_overrun", "from_chunks_result_len_in_words", "chunk_buffer_formulas_regenerated",
+    "signed_bytes_length", "signed_bytes_inverse_canonical"]] + [
     "Dashu.Props.C07Debug." + t for t in ["debug_head_tail_on_words", "debug_text", "debug_text_est_one", "debug_head_tail_true_digits"]]
 EXPLANATION = ("Lean theorems for every word size, radix 2..36 and integer: the printing model (all size classes of both printers) "
                "produces exactly the positional digits; the parsing model equals the documented grammar as a total function on byte "
@@ -842,7 +848,7 @@ LEVEL_TEXT = ("Machine-checked Lean 4 theorems about an executable model of dash
               "power-of-two bit slicing across word boundaries); parser = documented grammar as a total function (malformed text is an "
               "error, never a number) and parse(print(n)) = n for both letter cases and signs; format_prepared = pad_integral spec; the "
               "word-level byte encoders/decoders of convert.rs (unsigned and two's complement, little AND big endian each mirrored as the code it is, inline and heap paths) equal the positional "
-              "specification and are mutually inverse for every integer; the chunk routines (to_chunks all three paths, chunks_to_words with its "
+              "specification and are mutually inverse for every integer, in both directions (the converse exactly for byte strings of the encoder's length, which is the minimal two's complement length except for -(2^(8q+7))); the chunk routines (to_chunks all three paths, chunks_to_words with its "
               "shift/add kernels and buffer sizes) equal the base-2^k digits and are mutually inverse for every chunk size k >= 1; every "
               "fixed-size buffer of printers and parsers is modelled as a bounded array and proved never overrun; the lowest layer is mirrored "
               "on machine words and is what the driver executes: the multiply-shift reciprocal division by the radix (FastDivideSmall = "
